@@ -22,9 +22,9 @@ func corpus31() []prog {
 		add("range-"+t, fmt.Sprintf(`access(all) fun main(): %[1]s {
   var s: %[1]s = 0
   for x in InclusiveRange<%[1]s>(0, 12) { s = s + x }
-  let r = InclusiveRange<%[1]s>(1, 100, step: 33)
+  let r = InclusiveRange<%[1]s>(1, 40, step: 13)
   for x in r { s = s + x %% 2 }
-  return s + (r.contains(34) ? 1 : 0)
+  return s + (r.contains(14) ? 1 : 0)
 }`, t))
 	}
 	add("smallint-arith", `access(all) fun main(): Int { var a = 0; var i = -130; while i < 130 { a = a + i * 2 - (i / 3); i = i + 1 }; return a }`)
@@ -46,15 +46,15 @@ func corpus31() []prog {
 	// built-in types' members, type values, run-time types
 	add("type-values", `access(all) fun main(): Int {
   let ts: [Type] = [Type<Int>(), Type<String>(), Type<[Int8]>(), Type<{String: Int}>(), Type<&Account>(), Type<auth(Storage) &Account.Storage>(),
-    Type<PublicKey>(), Type<Capability<&Int>>(), Type<fun(Int): Int>(), Type<InclusiveRange<Int>>(), Type<AnyStruct?>(), Type<HashAlgorithm>(), Type<@AnyResource>(), Type<Block>(), Type<DeployedContract>()]
+    Type<PublicKey>(), Type<Capability<&Int>>(), Type<InclusiveRange<Int>>(), Type<AnyStruct?>(), Type<HashAlgorithm>(), Type<@AnyResource>(), Type<Block>(), Type<DeployedContract>()]
   var n = 0
   for t in ts { n = n + t.identifier.length; if t.isSubtype(of: Type<AnyStruct>()) { n = n + 1 }; if t.isRecovered { n = n + 1 } }
-  return n
+  return n + Type<fun(Int): Int>().identifier.length
 }`)
 	add("type-construct", `access(all) fun main(): Int {
   let a = OptionalType(Type<Int>())
   let b = VariableSizedArrayType(a)
-  let c = DictionaryType(keyType: Type<String>(), valueType: b)!
+  let c = DictionaryType(key: Type<String>(), value: b)!
   let d = ReferenceType(entitlements: ["Storage"], type: Type<Account>())
   let e = CompositeType("A.0000000000000001.C.R")
   let f = FunctionType(parameters: [Type<Int>()], return: Type<String>())
@@ -70,7 +70,7 @@ access(all) fun main(): Int {
   var n = 0
   for x in xs {
     if let i = x as? Int { n = n + i }
-    if x is String { n = n + 1 }
+    if (x as? String) != nil { n = n + 1 }
     if let s = x as? S { n = n + s.a }
     if x.isInstance(Type<[Int]>()) { n = n + 1 }
     if x.getType() == Type<UInt8>() { n = n + 1 }
@@ -99,13 +99,13 @@ access(all) fun main(): Int {
   return acc + (f(4) ?? 0) + (f(nil) ?? 1) + (o! ?? 0)
 }`)
 	add("composites", `access(all) struct interface I { access(all) fun f(): Int { return 1 } access(all) fun g(_ x: Int): Int { pre { x > 0: "pos" } post { result > x: "grow" } } }
-access(all) struct S: I { access(all) var v: Int; init(v: Int) { self.v = v } access(all) fun g(_ x: Int): Int { return x + self.v } }
+access(all) struct S: I { access(all) var v: Int; init(v: Int) { self.v = v } access(all) fun set(_ v: Int) { self.v = v } access(all) fun g(_ x: Int): Int { return x + self.v } }
 access(all) enum E: UInt8 { access(all) case a; access(all) case b }
 access(all) resource R { access(all) let id: Int; init(id: Int) { self.id = id } }
 access(all) fun main(): Int {
   let s = S(v: 2)
   var t = s
-  t.v = 10
+  t.set(10)
   let rs: @[R] <- [<- create R(id: 1), <- create R(id: 2)]
   let r <- rs.remove(at: 0)
   let n = r.id + rs[0].id + rs.length
@@ -132,7 +132,7 @@ access(all) fun main(): Int { let o = Outer(); let r = &o as auth(X) &Outer; let
   let ac = caps.account
   return s.storagePaths.length + c.names.length + Int(k.count) + sc.getControllers(forPath: /storage/r).length + ac.getControllers().length
 }`)
-	add("references", `access(all) fun main(): Int { let xs = [[1, 2], [3]]; let r = &xs as auth(Mutate) &[[Int]]; r[0].append(9); let inner = r[1]; let d = {"a": 1}; let dr = &d as &{String: Int}; return r[0].length + inner[0] + (dr["a"] ?? 0) + r.length }`)
+	add("references", `access(all) fun main(): Int { let xs = [[1, 2], [3]]; let r = &xs as auth(Mutate) &[[Int]]; r.append([9]); let inner = r[1]; let d = {"a": 1}; let dr = &d as &{String: Int}; return r[0].length + inner[0] + (dr["a"] ?? 0) + r.length }`)
 	// host services
 	add("crypto", `access(all) fun main(): Int {
   let k = PublicKey(publicKey: "0102".decodeHex(), signatureAlgorithm: SignatureAlgorithm.ECDSA_P256)
